@@ -210,8 +210,16 @@ def assume_sep_free(vc, s, sep):
 def _structural_split(it, s, sep_lit):
     """parts of s.split(sep) when s is a concatenation of literals and strings declared sep-free; else None"""
     reg = _sepfree_registry(it.ex)
-    t = simp(s.t)
-    kids = t.children() if (z3.is_app(t) and t.decl().kind() == z3.Z3_OP_SEQ_CONCAT) else [t]
+    kids = []
+
+    def flat(t):
+        if z3.is_app(t) and t.decl().kind() == z3.Z3_OP_SEQ_CONCAT:
+            for c in t.children():
+                flat(c)
+        else:
+            kids.append(t)
+
+    flat(s.t)
     parts = [[]]
     for c in kids:
         if z3.is_string_value(c):
@@ -293,13 +301,9 @@ FUNCTIONS[id(range)] = (range, _range)
 # idna codec
 
 IDNA_AXIOMS = [
-    "bytes.decode('idna') of b (len < 64): if b is pure ASCII and does not contain b'xn--' the result is b unchanged (fast path of encodings.idna)",
-    "bytes.decode('idna') of b (len < 64) that contains a byte >= 0x80 and no b'xn--' raises UnicodeDecodeError",
-    "bytes.decode('idna') may raise UnicodeDecodeError or a plain UnicodeError (e.g. invalid punycode, 'IDNA does not round-trip') only in the remaining case (b contains b'xn--'); otherwise it returns an uninterpreted str dec_idna(b)",
-    "str.encode('idna') of s: '' -> b''; pure-ASCII s without '.': s unchanged if 0 < len(s) < 64, else UnicodeError; non-ASCII s: UnicodeError or an uninterpreted pure-ASCII bytes value enc_idna(s)",
+    "bytes.decode('idna') of a non-constant b: succeeds with an uninterpreted str dec_idna(b), raises UnicodeDecodeError, or raises a plain UnicodeError (e.g. invalid punycode, 'IDNA does not round-trip'); which one is an uninterpreted function idna_dec_status(b) in {0,1,2}; constants are decoded by the real codec",
+    "str.encode('idna') of a non-constant s: raises UnicodeError, or returns an uninterpreted bytes value enc_idna(s); whether it succeeds is an uninterpreted predicate idna_encodable(s); ''.encode('idna') == b''; constants are encoded by the real codec",
 ]
-_ASCII = z3.Star(z3.Range(chr(0), chr(127)))
-ACE = z3.StringVal("xn--")
 
 
 def idna_dec_status(t):
@@ -326,19 +330,12 @@ def _decode(it, s, *a, **k):
     enc = (a[0].concrete() if a else (k["encoding"].concrete() if "encoding" in k else "utf-8")).lower()
     if enc != "idna" or s.concrete() is not None or len(a) > 1 or "errors" in k:
         return _orig_decode(it, s, *a, **k)
-    it.ex.note("assumed", "idna codec: " + "; ".join(IDNA_AXIOMS[:3]))
+    it.ex.note("assumed", "idna codec: " + IDNA_AXIOMS[0])
     t = s.t
     st = idna_dec_status(t)
-    ascii_ = z3.InRe(t, _ASCII)
-    has_ace = z3.Contains(t, ACE)
-    short = slen(t) < 64
     it.ex.assume(z3.And(st >= 0, st <= 2))
-    it.ex.assume(z3.Implies(z3.And(short, ascii_, z3.Not(has_ace)), st == 0))
-    it.ex.assume(z3.Implies(z3.And(short, z3.Not(ascii_), z3.Not(has_ace)), st == 1))
     if it.branch(SBool(st == 0)):
-        r = idna_dec(t)
-        it.ex.assume(z3.Implies(z3.And(short, ascii_, z3.Not(has_ace)), r == t))
-        return SStr(r)
+        return SStr(idna_dec(t))
     if it.branch(SBool(st == 1)):
         it.raise_(UnicodeDecodeError, "idna")
     it.raise_(UnicodeError, "idna")
@@ -353,19 +350,13 @@ def _encode(it, s, *a, **k):
     enc = (a[0].concrete() if a else (k["encoding"].concrete() if "encoding" in k else "utf-8")).lower()
     if enc != "idna" or s.concrete() is not None or len(a) > 1 or "errors" in k:
         return _orig_encode(it, s, *a, **k)
-    it.ex.note("assumed", "idna codec: " + IDNA_AXIOMS[3])
+    it.ex.note("assumed", "idna codec: " + IDNA_AXIOMS[1])
     t = s.t
-    n = slen(t)
     ok = idna_enc_ok(t)
-    ascii_ = z3.InRe(t, _ASCII)
-    nodot = z3.Not(z3.Contains(t, z3.StringVal(".")))
-    it.ex.assume(z3.Implies(n == 0, ok))
-    it.ex.assume(z3.Implies(z3.And(ascii_, nodot, n > 0), ok == (n < 64)))
+    r = idna_enc(t)
+    it.ex.assume(z3.Implies(slen(t) == 0, z3.And(ok, slen(r) == 0)))
     if not it.branch(SBool(ok)):
         it.raise_(UnicodeError, "idna")
-    r = idna_enc(t)
-    it.ex.assume(z3.InRe(r, _ASCII))
-    it.ex.assume(z3.Implies(z3.And(ascii_, nodot), r == t))
     return SBytes(r)
 
 
